@@ -12,6 +12,9 @@ Proof. unfold upd. now rewrite Nat.eqb_refl. Qed.
 Lemma upd_neq A (f : nat -> A) k a x : x <> k -> upd f k a x = f x.
 Proof. unfold upd. intros H. apply Nat.eqb_neq in H. now rewrite H. Qed.
 
+Lemma upd_upd A (f : nat -> A) i a b k : upd (upd f i a) i b k = upd f i b k.
+Proof. unfold upd. destruct (Nat.eqb k i); reflexivity. Qed.
+
 Definition ch_of (p : apc) : option nat :=
   match p with
   | AEnq _ ch | AWait _ ch | ATimePoll _ ch | AGotDrain _ ch _ | AGotPush _ ch _ => Some ch
@@ -141,7 +144,7 @@ Qed.
 Section Step.
   Variables (s s' : state) (i : nat) (a' : ask) (c0 ch0 : nat).
   Hypothesis I : Inv s.
-  Hypothesis Hasks : asks s' = upd (asks s) i a'.
+  Hypothesis Hasks : forall k, asks s' k = upd (asks s) i a' k.
   Hypothesis Hctx : forall c, c <> c0 -> ctxs s' c = ctxs s c.
   Hypothesis Hc0 : forall k, k <> i -> ~ cown_a (asks s k) c0.
   Hypothesis Hch : forall ch, ch <> ch0 -> chans s' ch = chans s ch.
@@ -201,12 +204,12 @@ Section Step.
     - intros k. rewrite Hasks. destruct (Nat.eq_dec k i) as [->|Hne].
       + now rewrite upd_eq.
       + rewrite upd_neq by auto. now apply other_local.
-    - intros k j ch. rewrite Hasks.
+    - intros k j ch. rewrite !Hasks.
       destruct (Nat.eq_dec k i) as [->|Hk], (Nat.eq_dec j i) as [->|Hj]; rewrite ?upd_eq, ?upd_neq by auto; auto.
       + intros A B. destruct (Howns ch A) as [A'|A']; [apply (i_uch s I i j ch A' B)|destruct (A' j Hj B)].
       + intros A B. destruct (Howns ch B) as [B'|B']; [apply (i_uch s I k i ch A B')|destruct (B' k Hk A)].
       + apply (i_uch s I).
-    - intros k j c. rewrite Hasks.
+    - intros k j c. rewrite !Hasks.
       destruct (Nat.eq_dec k i) as [->|Hk], (Nat.eq_dec j i) as [->|Hj]; rewrite ?upd_eq, ?upd_neq by auto; auto.
       + intros A B. destruct (Hcown c A) as [A'|A']; [apply (i_xctx s I i j c A' B)|destruct (A' j Hj B)].
       + intros A B. destruct (Hcown c B) as [B'|B']; [apply (i_xctx s I k i c A B')|destruct (B' k Hk A)].
@@ -288,7 +291,7 @@ Ltac inv_ask I i Hap :=
   pose proof (i_local _ I i) as L; destruct L as [Ls Lu Lx [Lpc1 Lpc2] Le Ll Li Lr Lf Lle Lsd Lt Lk Lfl];
   rewrite ?Hap in *; cbn in *.
 
-Lemma step_new s i o : Inv s -> ap (asks s i) = ANew -> Inv (step true s (LAsker i o SelReply)).
+Lemma step_new s i o sl : Inv s -> ap (asks s i) = ANew -> Inv (step true s (LAsker i o sl)).
 Proof.
   intros I Hap. cbn. rewrite Hap.
   destruct (take (ctxpool s) (nctx s) o) as [[c pool'] n'] eqn:T.
@@ -299,22 +302,587 @@ Proof.
   eapply inv_step_frame with (i := i) (c0 := c) (ch0 := nch s); try exact I; cbn; try reflexivity; auto.
   - intros k _. now apply fresh_ch_unowned.
   - intros c' H. left. now apply T5.
-  - constructor; cbn; unfold owns_a, cown_a, closed_a, quiet_a; cbn; rewrite ?E1, ?E2, ?E3, ?E4; auto.
+  - constructor; cbn; unfold owns_a, cown_a, closed_a, quiet_a; cbn; rewrite ?E1, ?E2, ?E3, ?E4.
+    + reflexivity.
     + intros ch [H|[H _]]; discriminate.
     + intros c' [H|[H _]]; [inversion H; subst; auto|discriminate].
     + split; intros; discriminate.
+    + auto.
     + discriminate.
     + split; auto.
     + intros; discriminate.
+    + reflexivity.
     + intros n. split; discriminate.
     + intros; discriminate.
     + intros; discriminate.
     + intros [H|(c' & ch & H)]; discriminate.
     + discriminate.
   - intros ch [H|[H _]]; discriminate.
-  - intros c' [H|[H _]]; [inversion H; subst; right; exact Hun|congruence].
+  - intros c' [H|[H H']]; [inversion H; subst; right; exact Hun|]. cbn in H. rewrite E1 in H. discriminate.
   - apply (i_pch s I).
   - split; auto. intros c' H. now apply T5.
   - intros k H. rewrite (fresh_ch_empty s I) in H. discriminate.
   - intros ch _ H. destruct (i_val s I ch i H) as (A & _). congruence.
 Qed.
+
+Lemma step_build s i o sl c : Inv s -> ap (asks s i) = ABuild c -> Inv (step true s (LAsker i o sl)).
+Proof.
+  intros I Hap. cbn. rewrite Hap.
+  destruct (take (chpool s) (nch s) o) as [[ch pool'] n'] eqn:T.
+  pose proof (take_spec (chpool s) (nch s) o ch pool' n' (proj1 (i_pch s I)) (proj2 (i_pch s I)) T) as (T1 & T2 & T3 & T4 & T5 & T6).
+  inv_ask I i Hap. destruct (Le eq_refl) as (E1 & E2 & E3 & E4).
+  assert (Hun : forall k, k <> i -> ~ owns_a (asks s k) ch).
+  { intros k _. destruct T6 as [(-> & _)|Hin]; [now apply fresh_ch_unowned|now apply pooled_ch_unowned]. }
+  assert (Hemp : chans s ch = None).
+  { destruct T6 as [(-> & _)|Hin]; [now apply fresh_ch_empty|now apply pool_ch_empty]. }
+  assert (Hci : cown_a (asks s i) c) by (left; exact Hap).
+  eapply inv_step_frame with (i := i) (c0 := c) (ch0 := ch); try exact I; cbn; try reflexivity; auto.
+  - intros c' Hne. now rewrite upd_neq.
+  - intros k Hne H. apply Hne. apply (i_xctx s I k i c H Hci).
+  - intros ch' H. left. now apply T5.
+  - constructor; cbn; unfold owns_a, cown_a, closed_a, quiet_a; cbn; rewrite ?upd_eq; cbn; rewrite ?E3, ?E4.
+    + reflexivity.
+    + intros ch' [H|[H _]]; [inversion H; subst; auto|discriminate].
+    + intros c' [H|[H _]]; [discriminate|inversion H; subst; apply Lx; exact Hci].
+    + split; intros ? H; inversion H; reflexivity.
+    + discriminate.
+    + intros _. eauto.
+    + split; [intros _; right; eauto|reflexivity].
+    + intros c' H _. inversion H; subst. now rewrite upd_eq.
+    + reflexivity.
+    + intros n. split; discriminate.
+    + intros; discriminate.
+    + intros; discriminate.
+    + intros [H|(c' & ch' & H)]; discriminate.
+    + discriminate.
+  - intros ch' [H|[H _]]; [inversion H; subst; right; exact Hun|discriminate].
+  - intros c' [H|[H _]]; [discriminate|inversion H; subst; left; exact Hci].
+  - split; auto. intros ch' H. now apply T5.
+  - apply (i_pctx s I).
+  - intros k H. rewrite Hemp in H. discriminate.
+  - intros ch' _ H. destruct (i_val s I ch' i H) as (A & _). rewrite E2 in A. discriminate.
+Qed.
+
+Lemma step_enq s i o sl c ch : Inv s -> ap (asks s i) = AEnq c ch -> Inv (step true s (LAsker i o sl)).
+Proof.
+  intros I Hap. cbn. rewrite Hap.
+  inv_ask I i Hap.
+  assert (Hidle : rp (asks s i) = RIdle) by (apply Li; right; eauto).
+  pose proof (Lpc1 c eq_refl) as Ec. pose proof (Lpc2 ch eq_refl) as Ech.
+  eapply inv_step_frame with (i := i) (c0 := nctx s) (ch0 := nch s); try exact I; cbn; try reflexivity; auto.
+  - intros k. apply upd_upd.
+  - intros k _. now apply fresh_ctx_unowned.
+  - intros k _. now apply fresh_ch_unowned.
+  - rewrite !upd_eq. cbn.
+    constructor; cbn; unfold owns_a, cown_a, closed_a, quiet_a in *; cbn in *; rewrite ?Hap in *; cbn in *.
+    + reflexivity.
+    + intros ch' [H|[H _]]; [apply Lu; left; exact H|discriminate].
+    + intros c' [H|[H H']]; [discriminate|]. apply Lx. right. split; auto. rewrite Hidle. discriminate.
+    + split; intros ? H; inversion H; subst; auto.
+    + discriminate.
+    + intros _. eauto.
+    + split; [discriminate|intros [H|(c' & ch' & H)]; discriminate].
+    + intros c' H _. apply Lr; auto. rewrite Hidle. discriminate.
+    + intros _. apply Lf. now left.
+    + intros n. split; [intros H; inversion H; lia|discriminate].
+    + intros; discriminate.
+    + intros; discriminate.
+    + intros [H|(c' & ch' & H)]; discriminate.
+    + exact Lfl.
+  - rewrite !upd_eq. cbn. unfold owns_a. cbn. rewrite Hap. intros ch' [H|[H _]]; [left; left; exact H|discriminate].
+  - rewrite !upd_eq. cbn. unfold cown_a. cbn. intros c' [H|[H _]]; [discriminate|].
+    left. right. split; auto. rewrite Hidle. discriminate.
+  - apply (i_pch s I).
+  - apply (i_pctx s I).
+  - intros k H. rewrite (fresh_ch_empty s I) in H. discriminate.
+  - rewrite !upd_eq. cbn. intros ch' _ H. destruct (i_val s I ch' i H) as (A & B & C).
+    unfold quiet_a in B. rewrite Hidle in B. destruct B.
+Qed.
+
+(* the asker takes the value out of its channel (select's reply branch, or the poll after the deadline) *)
+Lemma step_take s i c ch v :
+  Inv s -> (ap (asks s i) = AWait c ch \/ ap (asks s i) = ATimePoll c ch) -> chans s ch = Some v ->
+  Inv (set_ap (set_chan s ch None) i (AGotDrain c ch v)).
+Proof.
+  intros I Hap Hv.
+  assert (Hoi : owns_a (asks s i) ch) by (left; destruct Hap as [-> | ->]; reflexivity).
+  assert (v = i) by (apply (i_uch s I v i ch); [now apply val_owner|exact Hoi]). subst v.
+  destruct (i_val s I ch i Hv) as (Va & Vq & _).
+  pose proof (i_local s I i) as L. destruct L as [Ls Lu Lx [Lpc1 Lpc2] Le Ll Li Lr Lf Lle Lsd Lt Lk Lfl].
+  assert (Hearly : early (ap (asks s i)) = false) by (destruct Hap as [-> | ->]; reflexivity).
+  assert (Hc : a_ctx (asks s i) = Some c) by (apply Lpc1; destruct Hap as [-> | ->]; reflexivity).
+  assert (Hnidle : rp (asks s i) <> RIdle).
+  { intros H. apply Li in H. destruct H as [H|(c' & ch' & H)]; [congruence|]. destruct Hap as [E|E]; rewrite E in H; discriminate. }
+  eapply inv_step_frame with (i := i) (c0 := nctx s) (ch0 := ch); try exact I; cbn; try reflexivity; auto.
+  - intros k _. now apply fresh_ctx_unowned.
+  - intros ch' Hne. now rewrite upd_neq.
+  - intros k Hne H. apply Hne. apply (i_uch s I k i ch H Hoi).
+  - constructor; cbn; unfold owns_a, cown_a, closed_a, quiet_a in *; cbn in *.
+    + reflexivity.
+    + intros ch' [H|[H _]]; [inversion H; subst; apply Lu; exact Hoi|discriminate].
+    + intros c' [H|H]; [discriminate|]. apply Lx. now right.
+    + split; intros ? H; inversion H; subst; auto.
+    + discriminate.
+    + intros _. now apply Ll.
+    + split; [intros H; contradiction|intros [H|(c' & ch' & H)]; discriminate].
+    + exact Lr.
+    + exact Lf.
+    + exact Lle.
+    + exact Lsd.
+    + intros v H. inversion H; subst. split; auto.
+    + intros [H|(c' & ch' & H)]; discriminate.
+    + auto.
+  - unfold owns_a. cbn. intros ch' [H|[H _]]; [inversion H; subst; left; exact Hoi|discriminate].
+  - unfold cown_a. cbn. intros c' [H|H]; [discriminate|]. left. now right.
+  - apply (i_pch s I).
+  - apply (i_pctx s I).
+  - intros k. rewrite upd_eq. discriminate.
+  - intros ch' Hne H. exfalso. apply Hne.
+    pose proof (val_owner s ch' i I H) as O. destruct O as [O|[O _]]; destruct Hap as [E|E]; rewrite E in O; cbn in O; congruence.
+Qed.
+
+Lemma step_wait_timer s i c ch :
+  Inv s -> ap (asks s i) = AWait c ch -> ticked (asks s i) = true -> Inv (set_ap s i (ATimePoll c ch)).
+Proof.
+  intros I Hap Htick.
+  pose proof (i_local s I i) as L. destruct L as [Ls Lu Lx [Lpc1 Lpc2] Le Ll Li Lr Lf Lle Lsd Lt Lk Lfl].
+  rewrite Hap in *. cbn in *.
+  assert (Hoi : owns_a (asks s i) ch) by (left; rewrite Hap; reflexivity).
+  eapply inv_step_frame with (i := i) (c0 := nctx s) (ch0 := nch s); try exact I; cbn; try reflexivity; auto.
+  - intros k _. now apply fresh_ctx_unowned.
+  - intros k _. now apply fresh_ch_unowned.
+  - constructor; cbn; unfold owns_a, cown_a, closed_a, quiet_a in *; cbn in *; rewrite ?Hap in *; cbn in *.
+    + reflexivity.
+    + intros ch' [H|[H _]]; [apply Lu; now left|discriminate].
+    + intros c' [H|H]; [discriminate|]. apply Lx. now right.
+    + split; intros ? H; inversion H; subst; auto.
+    + discriminate.
+    + exact Ll.
+    + split; [intros H; apply Li in H; destruct H as [H|(c' & ch' & H)]; discriminate|intros [H|(c' & ch' & H)]; discriminate].
+    + exact Lr.
+    + exact Lf.
+    + exact Lle.
+    + exact Lsd.
+    + intros; discriminate.
+    + intros _. exact Htick.
+    + exact Lfl.
+  - unfold owns_a. cbn. rewrite Hap. intros ch' [H|[H _]]; [left; left; exact H|discriminate].
+  - unfold cown_a. cbn. rewrite Hap. intros c' [H|H]; [discriminate|]. left. now right.
+  - apply (i_pch s I).
+  - apply (i_pctx s I).
+  - intros k H. rewrite (fresh_ch_empty s I) in H. discriminate.
+  - intros ch' _ H. destruct (i_val s I ch' i H) as (A & B & C). rewrite Hap in C. cbn in C. repeat split; auto.
+Qed.
+
+(* the poll after the deadline finds nothing: the Ask fails and the channel is abandoned *)
+Lemma step_poll_none s i c ch :
+  Inv s -> ap (asks s i) = ATimePoll c ch -> chans s ch = None -> Inv (set_ap s i (ADone None)).
+Proof.
+  intros I Hap Hv.
+  pose proof (i_local s I i) as L. destruct L as [Ls Lu Lx [Lpc1 Lpc2] Le Ll Li Lr Lf Lle Lsd Lt Lk Lfl].
+  rewrite Hap in *. cbn in *.
+  assert (Hoi : owns_a (asks s i) ch) by (left; rewrite Hap; reflexivity).
+  pose proof (Lpc2 ch eq_refl) as Ech.
+  eapply inv_step_frame with (i := i) (c0 := nctx s) (ch0 := nch s); try exact I; cbn; try reflexivity; auto.
+  - intros k _. now apply fresh_ctx_unowned.
+  - intros k _. now apply fresh_ch_unowned.
+  - constructor; cbn; unfold owns_a, cown_a, closed_a, quiet_a in *; cbn in *; rewrite ?Hap in *; cbn in *.
+    + reflexivity.
+    + intros ch' [H|[_ H]]; [discriminate|]. apply Lu. left. congruence.
+    + intros c' [H|H]; [discriminate|]. apply Lx. now right.
+    + split; intros; discriminate.
+    + discriminate.
+    + exact Ll.
+    + split; [intros H; apply Li in H; destruct H as [H|(c' & ch' & H)]; discriminate|intros [H|(c' & ch' & H)]; discriminate].
+    + exact Lr.
+    + exact Lf.
+    + exact Lle.
+    + exact Lsd.
+    + intros; discriminate.
+    + intros _. apply Lk. right. eauto.
+    + intros H. apply Lfl in H. congruence.
+  - unfold owns_a. cbn. rewrite Hap. intros ch' [H|[_ H]]; [discriminate|]. left. left. cbn. congruence.
+  - unfold cown_a. cbn. rewrite Hap. intros c' [H|H]; [discriminate|]. left. now right.
+  - apply (i_pch s I).
+  - apply (i_pctx s I).
+  - intros k H. rewrite (fresh_ch_empty s I) in H. discriminate.
+  - intros ch' _ H. destruct (i_val s I ch' i H) as (A & B & C). repeat split; auto.
+Qed.
+
+Lemma NoDup_snoc A (l : list A) x : NoDup l -> ~ In x l -> NoDup (l ++ [x]).
+Proof.
+  induction l as [|a l IH]; intros Hnd Hx; cbn.
+  - constructor; [intros []|constructor].
+  - inversion Hnd; subst. constructor.
+    + rewrite in_app_iff. cbn. intros [H|[H|[]]]; [auto|subst; apply Hx; now left].
+    + apply IH; auto. intros H; apply Hx; now right.
+Qed.
+
+Lemma step_drain s i c ch v :
+  Inv s -> ap (asks s i) = AGotDrain c ch v -> Inv (set_ap (set_chan s ch None) i (AGotPush c ch v)).
+Proof.
+  intros I Hap.
+  pose proof (i_local s I i) as L. destruct L as [Ls Lu Lx [Lpc1 Lpc2] Le Ll Li Lr Lf Lle Lsd Lt Lk Lfl].
+  rewrite Hap in *. cbn in *.
+  assert (Hoi : owns_a (asks s i) ch) by (left; rewrite Hap; reflexivity).
+  eapply inv_step_frame with (i := i) (c0 := nctx s) (ch0 := ch); try exact I; cbn; try reflexivity; auto.
+  - intros k _. now apply fresh_ctx_unowned.
+  - intros ch' Hne. now rewrite upd_neq.
+  - intros k Hne H. apply Hne. apply (i_uch s I k i ch H Hoi).
+  - constructor; cbn; unfold owns_a, cown_a, closed_a, quiet_a in *; cbn in *; rewrite ?Hap in *; cbn in *.
+    + reflexivity.
+    + intros ch' [H|[H _]]; [apply Lu; now left|discriminate].
+    + intros c' [H|H]; [discriminate|]. apply Lx. now right.
+    + split; intros ? H; inversion H; subst; auto.
+    + discriminate.
+    + exact Ll.
+    + split; [intros H; apply Li in H; destruct H as [H|(c' & ch' & H)]; discriminate|intros [H|(c' & ch' & H)]; discriminate].
+    + exact Lr.
+    + exact Lf.
+    + exact Lle.
+    + exact Lsd.
+    + exact Lt.
+    + intros [H|(c' & ch' & H)]; discriminate.
+    + auto.
+  - unfold owns_a. cbn. rewrite Hap. intros ch' [H|[H _]]; [left; left; exact H|discriminate].
+  - unfold cown_a. cbn. rewrite Hap. intros c' [H|H]; [discriminate|]. left. now right.
+  - apply (i_pch s I).
+  - apply (i_pctx s I).
+  - intros k. rewrite upd_eq. discriminate.
+  - intros ch' _ H. destruct (i_val s I ch' i H) as (A & B & C). rewrite Hap in C. cbn in C. destruct C; discriminate.
+Qed.
+
+Lemma step_push s i c ch v :
+  Inv s -> ap (asks s i) = AGotPush c ch v -> Inv (set_ap (push_ch s ch) i (ADone (Some v))).
+Proof.
+  intros I Hap.
+  pose proof (i_local s I i) as L. destruct L as [Ls Lu Lx [Lpc1 Lpc2] Le Ll Li Lr Lf Lle Lsd Lt Lk Lfl].
+  rewrite Hap in *. cbn in *.
+  assert (Hoi : owns_a (asks s i) ch) by (left; rewrite Hap; reflexivity).
+  destruct (Lu ch Hoi) as (Hnp & Hlt).
+  eapply inv_step_frame with (i := i) (c0 := nctx s) (ch0 := ch); try exact I; cbn; try reflexivity; auto.
+  - intros k _. now apply fresh_ctx_unowned.
+  - intros k Hne H. apply Hne. apply (i_uch s I k i ch H Hoi).
+  - intros ch' H. apply in_app_or in H. destruct H as [H|[H|[]]]; auto.
+  - constructor; cbn; unfold owns_a, cown_a, closed_a, quiet_a in *; cbn in *; rewrite ?Hap in *; cbn in *.
+    + reflexivity.
+    + intros ch' [H|[H _]]; discriminate.
+    + intros c' [H|H]; [discriminate|]. apply Lx. now right.
+    + split; intros; discriminate.
+    + discriminate.
+    + exact Ll.
+    + split; [intros H; apply Li in H; destruct H as [H|(c' & ch' & H)]; discriminate|intros [H|(c' & ch' & H)]; discriminate].
+    + exact Lr.
+    + exact Lf.
+    + exact Lle.
+    + exact Lsd.
+    + exact Lt.
+    + intros [H|(c' & ch' & H)]; discriminate.
+    + auto.
+  - unfold owns_a. cbn. intros ch' [H|[H _]]; discriminate.
+  - unfold cown_a. cbn. rewrite Hap. intros c' [H|H]; [discriminate|]. left. now right.
+  - split.
+    + apply NoDup_snoc; [apply (i_pch s I)|exact Hnp].
+    + intros ch' H. apply in_app_or in H. destruct H as [H|[<-|[]]]; [now apply (i_pch s I)|exact Hlt].
+  - apply (i_pctx s I).
+  - intros k H. exfalso. pose proof (val_owner s ch k I H) as O.
+    assert (k = i) by (apply (i_uch s I k i ch O Hoi)). subst k.
+    destruct (i_val s I ch i H) as (_ & _ & C). rewrite Hap in C. destruct C; discriminate.
+  - intros ch' _ H. destruct (i_val s I ch' i H) as (A & B & C). rewrite Hap in C. cbn in C. destruct C; discriminate.
+Qed.
+
+(* ------------------------------------------------------------------ the steps of the handler *)
+
+(* a generic lemma for steps that only change the handler phase / flags of ask i *)
+Lemma step_ask_only s i a' :
+  Inv s ->
+  let a := asks s i in
+  ap a' = ap a -> a_ctx a' = a_ctx a -> a_ch a' = a_ch a -> nresp a' = nresp a ->
+  (ticked a = true -> ticked a' = true) ->
+  (rp a' = RIdle <-> rp a = RIdle) -> (rp a' <> RRecycled <-> rp a <> RRecycled) ->
+  ((rp a' = RIdle \/ rp a' = RCall (nresp a)) -> closed_a s a = false) ->
+  (forall n, (rp a' = RCall n -> n <= nresp a) /\ (rp a' = RSend n -> n < nresp a)) ->
+  (forall n, rp a' = RSend n -> closed_a s a = true) ->
+  (quiet_a s a -> quiet_a s a') ->
+  (replied_in_time a' = true -> replied_in_time a = true) ->
+  Inv (set_ask s i a').
+Proof.
+  intros I a Eap Ectx Ech Enr Htk Hidle Hrec Hfirst Hle Hsend Hq Hfl.
+  pose proof (i_local s I i) as L. destruct L as [Ls Lu Lx [Lpc1 Lpc2] Le Ll Li Lr Lf Lle Lsd Lt Lk Lfl].
+  fold a in Ls, Lu, Lx, Lpc1, Lpc2, Le, Ll, Li, Lr, Lf, Lle, Lsd, Lt, Lk, Lfl.
+  assert (Hcl : closed_a s a' = closed_a s a) by (unfold closed_a; now rewrite Ectx).
+  eapply inv_step_frame with (i := i) (c0 := nctx s) (ch0 := nch s); try exact I; cbn; try reflexivity; auto.
+  - intros k _. now apply fresh_ctx_unowned.
+  - intros k _. now apply fresh_ch_unowned.
+  - constructor; unfold owns_a, cown_a in *; rewrite ?Eap, ?Ectx, ?Ech, ?Enr, ?Hcl in *.
+    + exact Ls.
+    + exact Lu.
+    + intros c' [H|[H H']]; apply Lx; [now left|right; split; auto; now apply Hrec].
+    + split; assumption.
+    + intros H. destruct (Le H) as (A & B & C & D). repeat split; auto.
+      * now apply Hidle.
+      * destruct (replied_in_time a') eqn:E; auto. rewrite (Hfl eq_refl) in D. discriminate.
+    + exact Ll.
+    + rewrite Hidle. exact Li.
+    + intros c' H H'. apply Lr; auto. now apply Hrec.
+    + intros H. change (closed_a s a' = false). rewrite Hcl. now apply Hfirst.
+    + exact Hle.
+    + intros n H. change (closed_a s a' = true). rewrite Hcl. now apply (Hsend n).
+    + intros v H. destruct (Lt v H). split; auto.
+    + intros H. apply Htk. now apply Lk.
+    + intros H. apply Lfl. now apply Hfl.
+  - unfold owns_a. rewrite Eap, Ech. auto.
+  - unfold cown_a. rewrite Eap, Ectx. intros c' [H|[H H']]; left; [now left|right; split; auto; now apply Hrec].
+  - apply (i_pch s I).
+  - apply (i_pctx s I).
+  - intros k H. rewrite (fresh_ch_empty s I) in H. discriminate.
+  - intros ch' _ H. destruct (i_val s I ch' i H) as (A & B & C). fold a in A, B, C.
+    rewrite Ech, Eap. repeat split; auto.
+Qed.
+
+(* Response wins the responseClosed CAS *)
+Lemma step_cas s i n c :
+  Inv s -> rp (asks s i) = RCall (S n) -> a_ctx (asks s i) = Some c -> closed (ctxs s c) = false ->
+  Inv (set_rp (set_closed s c true) i (RSend n)).
+Proof.
+  intros I Hrp Hc Hcl.
+  pose proof (i_local s I i) as L. destruct L as [Ls Lu Lx [Lpc1 Lpc2] Le Ll Li Lr Lf Lle Lsd Lt Lk Lfl].
+  assert (Hci : cown_a (asks s i) c) by (right; split; auto; rewrite Hrp; discriminate).
+  assert (Hnq : ~ quiet_a s (asks s i)).
+  { unfold quiet_a, closed_a. rewrite Hrp, Hc, Hcl. discriminate. }
+  eapply inv_step_frame with (i := i) (c0 := c) (ch0 := nch s); try exact I; cbn; try reflexivity; auto.
+  - intros c' Hne. now rewrite upd_neq.
+  - intros k Hne H. apply Hne. apply (i_xctx s I k i c H Hci).
+  - intros k _. now apply fresh_ch_unowned.
+  - constructor; cbn; unfold closed_a; cbn; rewrite ?Hc.
+    + exact Ls.
+    + exact Lu.
+    + intros c' [H|[H _]]; apply Lx; [left; exact H|right; split; [cbn in H; congruence|rewrite Hrp; discriminate]].
+    + split; [intros c' H; rewrite <- Hc; now apply Lpc1|exact Lpc2].
+    + intros H. destruct (Le H) as (_ & _ & H' & _). congruence.
+    + intros H. destruct (Ll H) as (c' & ch' & A & B). exists c, ch'. split; auto.
+    + split; [discriminate|]. intros H. apply Li in H. congruence.
+    + intros c' H _. inversion H; subst c'. rewrite upd_eq. cbn. apply Lr; auto. rewrite Hrp; discriminate.
+    + intros [H|H]; discriminate.
+    + intros m. split; [discriminate|]. intros H. inversion H; subst m. destruct (Lle (S n)) as (A & _). specialize (A Hrp). lia.
+    + intros m _. now rewrite upd_eq.
+    + intros v H. exfalso. apply Hnq. exact (proj2 (Lt v H)).
+    + exact Lk.
+    + exact Lfl.
+  - unfold cown_a. cbn. intros c' [H|[H _]]; left; [now left|right; split; [congruence|rewrite Hrp; discriminate]].
+  - apply (i_pch s I).
+  - apply (i_pctx s I).
+  - intros k H. rewrite (fresh_ch_empty s I) in H. discriminate.
+  - intros ch' _ H. exfalso. apply Hnq. now destruct (i_val s I ch' i H) as (_ & B & _).
+Qed.
+
+(* facts about an ask whose handler is about to send *)
+Lemma sending_facts s i n c :
+  Inv s -> rp (asks s i) = RSend n -> a_ctx (asks s i) = Some c ->
+  exists ch, a_ch (asks s i) = Some ch /\ cresp (ctxs s c) = Some ch /\ chans s ch = None /\
+             owns_a (asks s i) ch /\
+             (reading (ap (asks s i)) = true /\ ch_of (ap (asks s i)) = Some ch \/ ap (asks s i) = ADone None).
+Proof.
+  intros I Hrp Hc.
+  pose proof (i_local s I i) as L. destruct L as [Ls Lu Lx [Lpc1 Lpc2] Le Ll Li Lr Lf Lle Lsd Lt Lk Lfl].
+  assert (Hnq : ~ quiet_a s (asks s i)) by (unfold quiet_a; rewrite Hrp; auto).
+  assert (Hearly : early (ap (asks s i)) = false).
+  { destruct (early (ap (asks s i))) eqn:E; auto. destruct (Le eq_refl) as (_ & _ & H & _). congruence. }
+  destruct (Ll Hearly) as (c' & ch & A & B). exists ch.
+  assert (Hcr : cresp (ctxs s c) = Some ch) by (rewrite <- B; apply Lr; auto; rewrite Hrp; discriminate).
+  assert (Hshape : reading (ap (asks s i)) = true /\ ch_of (ap (asks s i)) = Some ch \/ ap (asks s i) = ADone None).
+  { destruct (ap (asks s i)) as [| | | | | | | | | | |[v|]] eqn:E; cbn in *; try discriminate; auto;
+      try (left; split; auto; f_equal; specialize (Lpc2 _ eq_refl); congruence);
+      try (exfalso; apply Hnq; exact (proj2 (Lt _ eq_refl))). }
+  assert (Hown : owns_a (asks s i) ch).
+  { destruct Hshape as [(_ & H)|H]; [now left|right; auto]. }
+  repeat split; auto.
+  destruct (chans s ch) as [k|] eqn:E; auto. exfalso.
+  assert (k = i) by (apply (i_uch s I k i ch); [now apply val_owner|exact Hown]). subst k.
+  apply Hnq. now destruct (i_val s I ch i E) as (_ & Q & _).
+Qed.
+
+Lemma step_send s i n c :
+  Inv s -> rp (asks s i) = RSend n -> a_ctx (asks s i) = Some c -> Inv (step true s (LResp i)).
+Proof.
+  intros I Hrp Hc.
+  destruct (sending_facts s i n c I Hrp Hc) as (ch & Hch & Hcr & Hemp & Hown & Hshape).
+  cbn. rewrite Hrp, Hc, Hcr, Hemp.
+  pose proof (i_local s I i) as L. destruct L as [Ls Lu Lx [Lpc1 Lpc2] Le Ll Li Lr Lf Lle Lsd Lt Lk Lfl].
+  assert (Hnq : ~ quiet_a s (asks s i)) by (unfold quiet_a; rewrite Hrp; auto).
+  assert (Hclosed : closed (ctxs s c) = true) by (specialize (Lsd n Hrp); unfold closed_a in Lsd; now rewrite Hc in Lsd).
+  eapply inv_step_frame with (i := i) (c0 := nctx s) (ch0 := ch); try exact I; cbn; try reflexivity; auto.
+  - intros k _. now apply fresh_ctx_unowned.
+  - intros ch' Hne. now rewrite upd_neq.
+  - intros k Hne H. apply Hne. apply (i_uch s I k i ch H Hown).
+  - constructor; cbn; unfold closed_a; cbn; rewrite ?Hc, ?Hclosed.
+    + exact Ls.
+    + exact Lu.
+    + intros c' [H|[H _]]; apply Lx; [left; exact H|right; split; [cbn in H; congruence|rewrite Hrp; discriminate]].
+    + split; [intros c' H; rewrite <- Hc; now apply Lpc1|exact Lpc2].
+    + intros H. destruct (Le H) as (_ & _ & H' & _). congruence.
+    + intros H. destruct (Ll H) as (c' & ch' & A & B). exists c, ch'. split; auto.
+    + split; [discriminate|]. intros H. apply Li in H. congruence.
+    + intros c' H _. inversion H; subst c'. now rewrite Hcr, Hch.
+    + intros [H|H]; [discriminate|]. exfalso. inversion H. destruct (Lle n) as (_ & B). specialize (B Hrp). lia.
+    + intros m. split; [|discriminate]. intros H. inversion H; subst m. destruct (Lle n) as (_ & B). specialize (B Hrp). lia.
+    + intros; reflexivity.
+    + intros v H. split; [exact (proj1 (Lt v H))|reflexivity].
+    + exact Lk.
+    + intros H. destruct Hshape as [(R & C)|D].
+      * destruct (ap (asks s i)); cbn in *; try discriminate; inversion C; subst; now rewrite upd_eq.
+      * rewrite D in *. apply orb_true_iff in H. destruct H as [H|H]; [now apply Lfl|].
+        rewrite (Lk (or_introl eq_refl)) in H. cbn in H. rewrite andb_false_r in H. discriminate.
+  - unfold cown_a. cbn. intros c' [H|[H _]]; left; [now left|right; split; [cbn in H; congruence|rewrite Hrp; discriminate]].
+  - apply (i_pch s I).
+  - apply (i_pctx s I).
+  - intros k. rewrite !upd_eq. intros H. inversion H; subst k. rewrite upd_eq. cbn.
+    repeat split; auto.
+    destruct Hshape as [(R & _)|D]; auto.
+  - intros ch' Hne H. exfalso. apply Hne. destruct (i_val s I ch' i H) as (A & _). congruence.
+Qed.
+
+Lemma step_recycle s i c :
+  Inv s -> rp (asks s i) = RDone -> a_ctx (asks s i) = Some c -> Inv (step true s (LRecycle i)).
+Proof.
+  intros I Hrp Hc. cbn. rewrite Hrp, Hc.
+  pose proof (i_local s I i) as L. destruct L as [Ls Lu Lx [Lpc1 Lpc2] Le Ll Li Lr Lf Lle Lsd Lt Lk Lfl].
+  assert (Hci : cown_a (asks s i) c) by (right; split; auto; rewrite Hrp; discriminate).
+  destruct (Lx c Hci) as (Hnp & Hlt).
+  eapply inv_step_frame with (i := i) (c0 := c) (ch0 := nch s); try exact I; cbn; try reflexivity; auto.
+  - intros c' Hne. now rewrite upd_neq.
+  - intros k Hne H. apply Hne. apply (i_xctx s I k i c H Hci).
+  - intros k _. now apply fresh_ch_unowned.
+  - intros c' H. apply in_app_or in H. destruct H as [H|[H|[]]]; auto.
+  - constructor; cbn; unfold closed_a; cbn.
+    + exact Ls.
+    + exact Lu.
+    + intros c' [H|[_ H]]; [|exfalso; apply H; reflexivity]. exfalso. cbn in H.
+      assert (early (ap (asks s i)) = true) by (rewrite H; reflexivity).
+      destruct (Le H0) as (_ & _ & H' & _). congruence.
+    + split; assumption.
+    + intros H. destruct (Le H) as (_ & _ & H' & _). congruence.
+    + exact Ll.
+    + split; [discriminate|]. intros H. apply Li in H. congruence.
+    + intros c' _ H. exfalso. apply H. reflexivity.
+    + intros [H|H]; discriminate.
+    + intros m. split; discriminate.
+    + intros; discriminate.
+    + intros v H. split; [exact (proj1 (Lt v H))|exact Logic.I].
+    + exact Lk.
+    + exact Lfl.
+  - unfold cown_a. cbn. intros c' [H|[_ H]]; [left; now left|exfalso; apply H; reflexivity].
+  - apply (i_pch s I).
+  - split.
+    + apply NoDup_snoc; [apply (i_pctx s I)|exact Hnp].
+    + intros c' H. apply in_app_or in H. destruct H as [H|[<-|[]]]; [now apply (i_pctx s I)|exact Hlt].
+  - intros k H. rewrite (fresh_ch_empty s I) in H. discriminate.
+  - intros ch' _ H. destruct (i_val s I ch' i H) as (A & B & C). repeat split; auto.
+Qed.
+
+(* ------------------------------------------------------------------ every step preserves the invariant *)
+
+Lemma inv_step s l : Inv s -> Inv (step true s l).
+Proof.
+  intros I. destruct l as [i o sl|i|i|i].
+  - (* asker *)
+    pose proof (l_shape _ _ _ (i_local s I i)) as Hshape.
+    destruct (ap (asks s i)) eqn:Hap; try discriminate.
+    + eapply step_new; eauto.
+    + eapply step_build; eauto.
+    + eapply step_enq; eauto.
+    + cbn. rewrite Hap. destruct sl.
+      * destruct (chans s ch) as [v|] eqn:Hv; [|exact I]. apply (step_take s i c ch v I); auto.
+      * destruct (ticked (asks s i)) eqn:Ht; [|exact I]. now apply step_wait_timer.
+    + cbn. rewrite Hap. exact (step_drain s i c ch v I Hap).
+    + cbn. rewrite Hap. exact (step_push s i c ch v I Hap).
+    + cbn. rewrite Hap. destruct (chans s ch) as [v|] eqn:Hv; [apply (step_take s i c ch v I); auto|exact (step_poll_none s i c ch I Hap Hv)].
+    + cbn. rewrite Hap. exact I.
+  - (* handler *)
+    pose proof (i_local s I i) as L. destruct L as [Ls Lu Lx [Lpc1 Lpc2] Le Ll Li Lr Lf Lle Lsd Lt Lk Lfl].
+    destruct (rp (asks s i)) as [|[|n]|n| |] eqn:Hrp; try (cbn; rewrite Hrp; try destruct (a_ctx (asks s i)); exact I).
+    + (* RCall 0 -> RDone *)
+      cbn. rewrite Hrp. apply step_ask_only; cbn; auto; try tauto.
+      * rewrite Hrp. split; discriminate.
+      * rewrite Hrp. split; discriminate.
+      * intros [H|H]; discriminate.
+      * intros m. split; discriminate.
+      * intros; discriminate.
+    + (* RCall (S n): the CAS *)
+      destruct (a_ctx (asks s i)) as [c|] eqn:Hc; [|cbn; rewrite Hrp, Hc; exact I].
+      cbn. rewrite Hrp, Hc. destruct (closed (ctxs s c)) eqn:Hcl; [|now apply step_cas].
+      assert (Hne : Nat.eqb (S n) (nresp (asks s i)) = false).
+      { apply Nat.eqb_neq. intros E. assert (closed_a s (asks s i) = false) by (apply Lf; right; rewrite ?Hrp, E; reflexivity).
+        unfold closed_a in H. rewrite Hc, Hcl in H. discriminate. }
+      apply step_ask_only; cbn; auto; try tauto.
+      * rewrite Hrp. split; discriminate.
+      * rewrite Hrp. split; discriminate.
+      * intros [H|H]; [discriminate|]. exfalso. inversion H. destruct (Lle (S n)) as (A & _). assert (S n <= nresp (asks s i)) by (apply A; (exact Hrp || reflexivity)). lia.
+      * intros m. split; [|discriminate]. intros H. inversion H; subst m. destruct (Lle (S n)) as (A & _). assert (S n <= nresp (asks s i)) by (apply A; (exact Hrp || reflexivity)). lia.
+      * intros; discriminate.
+      * cbn in Hne. rewrite Hne. cbn. now rewrite orb_false_r.
+    + (* RSend: the send *)
+      destruct (a_ctx (asks s i)) as [c|] eqn:Hc; [|cbn; rewrite Hrp, Hc; exact I].
+      eapply step_send; eauto.
+  - (* the deadline passes *)
+    pose proof (i_local s I i) as L. destruct L as [Ls Lu Lx [Lpc1 Lpc2] Le Ll Li Lr Lf Lle Lsd Lt Lk Lfl].
+    cbn. apply step_ask_only; cbn; auto; try tauto.
+  - (* recycling *)
+    destruct (rp (asks s i)) eqn:Hrp; try (cbn; rewrite Hrp; exact I).
+    destruct (a_ctx (asks s i)) as [c|] eqn:Hc; [|cbn; rewrite Hrp, Hc; exact I].
+    eapply step_recycle; eauto.
+Qed.
+
+(* ------------------------------------------------------------------ reachable states and the property *)
+
+Inductive reach (nresps : list nat) : state -> Prop :=
+| reach_init : reach nresps (init nresps)
+| reach_step s l : reach nresps s -> reach nresps (step true s l).
+
+Lemma reach_inv nresps s : reach nresps s -> Inv s.
+Proof. induction 1; [apply inv_init|now apply inv_step]. Qed.
+
+Lemma reach_run nresps ls : forall s, reach nresps s -> reach nresps (run true s ls).
+Proof. induction ls as [|l ls IH]; intros s H; cbn; auto. apply IH. now constructor. Qed.
+
+(* an Ask that returns a reply returns the reply to its own request *)
+Lemma fixed_no_cross nresps s i v : reach nresps s -> result s i = Some (Some v) -> v = i.
+Proof.
+  intros H R. pose proof (l_took _ _ _ (i_local s (reach_inv _ _ H) i) v) as T.
+  unfold result in R. destruct (ap (asks s i)) as [| | | | | | | | | | |r] eqn:E; try discriminate.
+  inversion R; subst r. cbn in T. now destruct (T eq_refl).
+Qed.
+
+(* an Ask whose handler's Response call returned before the deadline does not fail *)
+Lemma fixed_in_time nresps s i :
+  reach nresps s -> result s i = Some None -> replied_in_time (asks s i) = false.
+Proof.
+  intros H R. pose proof (l_flag _ _ _ (i_local s (reach_inv _ _ H) i)) as F.
+  unfold result in R. destruct (ap (asks s i)) as [| | | | | | | | | | |r] eqn:E; try discriminate.
+  inversion R; subst r. destruct (replied_in_time (asks s i)); auto. destruct (F eq_refl).
+Qed.
+
+Lemma fixed_reply_returned nresps s i r :
+  reach nresps s -> result s i = Some r -> replied_in_time (asks s i) = true -> r = Some i.
+Proof.
+  intros H R F. destruct r as [v|].
+  - f_equal. eapply fixed_no_cross; eauto.
+  - rewrite (fixed_in_time _ _ _ H R) in F. discriminate.
+Qed.
+
+(* the hypotheses are satisfiable: the three interleavings that defeat the code as it exists, replayed
+   on the repaired model (same thread schedule; the repaired asker takes fewer steps) *)
+Definition Ar (i : nat) : label := LAsker i None SelReply.
+Definition Atm (i : nat) : label := LAsker i None SelTimer.
+
+Example ex_fixed_cross :
+  let s := run true (init [1; 1])
+             [Ar 0; Ar 0; Ar 0; LResp 0; LTick 0; Atm 0; Ar 0;
+              Ar 1; LAsker 1 (Some 0) SelReply; Ar 1; LResp 0; LResp 0; LResp 1; LResp 1; LResp 1; Ar 1; Ar 1; Ar 1] in
+  reach [1; 1] s /\ results s 2 = [Some None; Some (Some 1)] /\ replied_in_time (asks s 0) = false.
+Proof. split; [apply reach_run; constructor|]. vm_compute. split; reflexivity. Qed.
+
+Example ex_fixed_both_ready :
+  let s := run true (init [1]) [Ar 0; Ar 0; Ar 0; LResp 0; LResp 0; LTick 0; Atm 0; Ar 0; Ar 0; Ar 0] in
+  reach [1] s /\ results s 1 = [Some (Some 0)] /\ replied_in_time (asks s 0) = true.
+Proof. split; [apply reach_run; constructor|]. vm_compute. split; reflexivity. Qed.
